@@ -214,19 +214,20 @@ End Exchange.
 
 (* ---------------------------------------------------------------- localhost *)
 Lemma localhost_complete idna aliases host :
-  localhost_maps_idna = true -> localhost_strips_zone = true -> localhost_checks_unspecified = true ->
+  localhost_maps_idna = true -> localhost_strips_dot = true -> localhost_strips_zone = true ->
+  localhost_checks_unspecified = true ->
   target_is_local idna aliases host = true -> is_localhost idna aliases host = true.
 Proof.
-  intros Hi Hz Hf. unfold target_is_local, is_localhost. rewrite Hi, Hz, Hf.
+  intros Hi Hd Hz Hf. unfold target_is_local, is_localhost. rewrite Hi, Hd, Hz, Hf.
   destruct (existsb _ _); [reflexivity|]. rewrite !orb_false_l.
   destruct (parse_ip _); [|discriminate]. rewrite andb_true_l. auto.
 Qed.
 
 Lemma localhost_sound idna aliases host :
-  localhost_maps_idna = true -> localhost_strips_zone = true ->
+  localhost_maps_idna = true -> localhost_strips_dot = true -> localhost_strips_zone = true ->
   is_localhost idna aliases host = true -> target_is_local idna aliases host = true.
 Proof.
-  intros Hi Hz. unfold target_is_local, is_localhost. rewrite Hi, Hz.
+  intros Hi Hd Hz. unfold target_is_local, is_localhost. rewrite Hi, Hd, Hz.
   destruct (existsb _ _); [reflexivity|]. rewrite !orb_false_l.
   destruct (parse_ip _); [|discriminate].
   destruct (ip_loopback l); [auto|]. rewrite !orb_false_l.
@@ -234,12 +235,12 @@ Proof.
 Qed.
 
 Lemma localhost_names idna aliases host :
-  localhost_maps_idna = true ->
-  In (lower (idna host)) (localhost_seed ++ aliases) -> is_localhost idna aliases host = true.
+  localhost_maps_idna = true -> localhost_strips_dot = true ->
+  In (strip_dot (lower (idna host))) (localhost_seed ++ aliases) -> is_localhost idna aliases host = true.
 Proof.
-  intros Hi H. unfold is_localhost. rewrite Hi.
-  assert (existsb (str_eqb (lower (idna host))) (localhost_seed ++ aliases) = true) as ->; [|reflexivity].
-  apply existsb_exists. exists (lower (idna host)). split; [exact H | apply str_eqb_refl].
+  intros Hi Hd H. unfold is_localhost. rewrite Hi, Hd.
+  assert (existsb (str_eqb (strip_dot (lower (idna host)))) (localhost_seed ++ aliases) = true) as ->; [|reflexivity].
+  apply existsb_exists. exists (strip_dot (lower (idna host))). split; [exact H | apply str_eqb_refl].
 Qed.
 
 (* ---------------------------------------------------------------- authentication *)
